@@ -633,6 +633,11 @@ func (t *Table) BOr(a, b *Term) *Term {
 			return b
 		}
 	}
+	if a.W == b.W {
+		if r := t.canonOr(a, b); r != nil {
+			return r
+		}
+	}
 	return t.bin(OpBOr, a, b)
 }
 
